@@ -14,7 +14,7 @@ impl ProgProperty for C07 {
         "C07"
     }
     fn rule(&self) -> String {
-        "structured / raw / candidate-divergent programs x input x width; execute_limited on all four back ends (one level each, drawn) with three budgets per case: 2^62, one of {0,1,2,7,100} and one uniform below 1e5. Oracle: 'finished' implies the log equals the complete canonical sequence (and the canonical run halts); 'interrupted' implies the log is a prefix of it (for divergent programs the detected cycle is unrolled; for runs beyond the step limit the common prefix is compared); budget 2^62 on a halting program must finish; a divergent program never finishes; a call with budget <= 1000 on a program <= 400 bytes that does not return within 20 s in isolation is a violation. Non-trivial: some run was interrupted strictly inside the canonical event sequence (after the first, before the last event); distinct = distinct (program, input, width)".into()
+        "structured / raw / candidate-divergent programs x input x width; execute_limited on all four back ends (one level each, drawn) with three budgets per case: 2^62, one of {0,1,2,7,100} and one uniform below 1e5. Oracle: 'finished' implies the log equals the complete canonical sequence (and the canonical run halts); 'interrupted' implies the log is a prefix of it (for divergent programs the detected cycle is unrolled; for runs beyond the step limit the common prefix is compared); budget 2^62 on a halting program must finish; a divergent program never finishes; the logs of any two runs of one case are prefixes of one another (which needs no reference and therefore also judges programs whose canonical run is too long to finish); a call with budget <= 1000 on a program <= 400 bytes that does not return within 20 s in isolation is a violation. Non-trivial: some run was interrupted strictly inside the canonical event sequence (after the first, before the last event); distinct = distinct (program, input, width)".into()
     }
     fn assumptions(&self) -> Vec<String> {
         vec!["'time bounded by the budget' is checked through a coarse, timing-robust bound only (see rule)".into()]
@@ -26,7 +26,7 @@ impl ProgProperty for C07 {
         }
     }
     fn mix(&self, _tier: Tier) -> Mix {
-        Mix { raw: 20, strukt: 45, div: 30, wide: 0, big: 0, roam: 5, deep: 0, commented: 3, hibits: 0 }
+        Mix { raw: 20, strukt: 45, div: 30, wide: 8, big: 4, roam: 5, deep: 0, commented: 3, hibits: 3 }
     }
     fn max_steps(&self) -> u64 {
         600_000
@@ -53,7 +53,30 @@ impl ProgProperty for C07 {
         }
         v
     }
+    /// Two logs that are both prefixes of the canonical sequence are prefixes of one another. This holds
+    /// without knowing the canonical run, so it also judges programs whose canonical run is too long
+    /// to finish here - the ones where closed forms and folded constants matter most.
+    fn extra_judge(&self, c: &ProgCase, _r: &RefRun, obs: &[Option<Obs>]) -> Option<crate::engine::Fail> {
+        let done: Vec<(usize, &Obs)> = obs.iter().enumerate().filter_map(|(i, o)| o.as_ref().map(|o| (i, o))).filter(|(_, o)| matches!(o.end, End::Returned(_))).collect();
+        for (ai, (i, a)) in done.iter().enumerate() {
+            for (j, b) in done.iter().skip(ai + 1) {
+                let n = a.events.len().min(b.events.len());
+                if a.events[..n] != b.events[..n] {
+                    let at = a.events.iter().zip(b.events.iter()).position(|(x, y)| x != y).unwrap_or(n);
+                    return Some(crate::engine::Fail {
+                        kind: "not-prefix-comparable".into(),
+                        detail: format!("[{}] and [{}] cannot both have logged a prefix of the canonical sequence: they differ at event {at} ({} vs {})", c.cfgs[*i].describe(c.bits), c.cfgs[*j].describe(c.bits), crate::refmodel::ev_string(&a.events[at.saturating_sub(2)..(at + 3).min(a.events.len())]), crate::refmodel::ev_string(&b.events[at.saturating_sub(2)..(at + 3).min(b.events.len())])),
+                        cfg: Some(*i),
+                    });
+                }
+            }
+        }
+        None
+    }
     fn nontrivial(&self, _c: &ProgCase, r: &RefRun, obs: &[Option<Obs>], stats: &mut Stats) -> bool {
+        if r.fate == Fate::Unknown {
+            stats.class("judged-pairwise-beyond-the-reference(canonical run too long)");
+        }
         let mut inside = false;
         for o in obs.iter().flatten() {
             match o.end {
